@@ -146,6 +146,17 @@ def x_sqrt(e, st, args, kwargs):
         yield st.assume(z3.Not(neg)).assume(z3.And(r >= 0, r * r == x)), r
 
 
+def x_trunc(e, st, args, kwargs):
+    a = args[0]
+    yield st, (e.T.from_real_trunc(a) if is_real(a) else e.to_int(a))
+
+
+def x_atan2(e, st, args, kwargs):
+    e.used_assumptions.add("math.atan2: uninterpreted real function")
+    f = e.get_uf("atan2", [z3.RealSort(), z3.RealSort()], z3.RealSort())
+    yield st, f(e.to_real(args[0]), e.to_real(args[1]))
+
+
 def x_time(e, st, args, kwargs):
     """wall clock: ghost real `$now` (seconds), constant during one call of a function under contract"""
     e.used_assumptions.add("time source: one ghost real `now` per verified call (the clock does not advance inside a call)")
@@ -213,13 +224,16 @@ def install_default_models(e):
     e.external_values["math.pi"] = pi
     e.axioms.append(z3.And(pi > z3.RealVal("3.14159"), pi < z3.RealVal("3.1416")))
     e.external_handlers["logging.getLogger"] = x_getlogger
+    inf = z3.Real("float.inf")
+    e.float_inf = inf
+    e.axioms.append(inf > z3.RealVal(10) ** 30)
     sin = e.get_uf("sin", [z3.RealSort()], z3.RealSort())
     cos = e.get_uf("cos", [z3.RealSort()], z3.RealSort())
     e.axioms.append(z3.And(sin(z3.RealVal(0)) == 0, cos(z3.RealVal(0)) == 1))
     e.opaque_handlers.update({"lock": h_lock, "rlock": h_lock, "logger": h_logger, "event": h_event,
                               "link_layer": h_link_layer, "callback": h_callback, "timer": h_timer,
                               "thread": h_thread, "cbf_buffer": make_keyed_map_handler(_fresh_timer),
-                              "loc_t": make_keyed_map_handler(_fresh_any), "time_fn": h_time_fn,
+                              "loc_t": make_keyed_map_handler(_fresh_any), "time_fn": h_time_fn, "any_list": h_any_list, "datetime": h_datetime,
                               "nearby_map": make_keyed_map_handler(_fresh_any)})
     e.external_handlers.update({
         "threading.Lock": x_lock, "threading.RLock": x_lock, "threading.Event": x_event, "threading.Timer": x_timer,
@@ -227,6 +241,8 @@ def install_default_models(e):
         "math.sin": _uf1("sin"), "math.cos": _uf1("cos"), "math.tan": _uf1("tan"), "math.atan": _uf1("atan"),
         "math.asin": _uf1("asin"), "math.radians": x_radians, "math.sqrt": x_sqrt,
         "typing.cast": x_cast, "dataclasses.replace": x_replace, "collections.deque": x_deque,
+        "math.trunc": x_trunc, "math.atan2": x_atan2, "math.floor": lambda e, st, a, k: iter([(st, e.T.floor_real(e.to_real(a[0])))]),
+        "dateutil.parser.parse": x_dateutil_parse, "dateutil.parser.parser.parse": x_dateutil_parse,
         "random.uniform": x_uniform, "random.randint": x_randint, "time.time": x_time,
         "flexstack.utils.time_service:TimeService.time": x_time,
     })
@@ -395,3 +411,33 @@ def keyed_map_filter(e, st, o, keep):
         g = dict(s0.ghost)
         g["map:" + str(new.ident)] = tuple(acc)
         yield s0._clone(ghost=g), new
+
+
+# ---------------------------------------------------------------------------------------------- misc opaque models
+def h_any_list(e, st, o, name, args, kwargs):
+    """a list whose content is irrelevant to the clauses proved (path history, buffers): length is a ghost int"""
+    if name in ("append", "clear", "extend", "insert", "remove"):
+        yield st, NONE
+    elif name == "pop":
+        yield st, Opaque("object", _ident(e, "object", "popped"))
+    elif name == "__len__":
+        n = e.T.const(e.fresh("list_len"))
+        yield st.assume(n >= e.intval(0)), n
+    else:
+        raise Unsupported(f"list model .{name}")
+
+
+def x_dateutil_parse(e, st, args, kwargs):
+    e.used_assumptions.add("dateutil.parser.parse(s).timestamp(): an uninterpreted real function of the string (may raise on malformed input is NOT modelled)")
+    s = args[0]
+    from .values import SymStr, StrV
+    term = s.term if isinstance(s, SymStr) else e.str_id(s.s) if isinstance(s, StrV) else z3.Int(e.fresh("strid"))
+    yield st, Opaque("datetime", None, {"str": term})
+
+
+def h_datetime(e, st, o, name, args, kwargs):
+    if name == "timestamp":
+        f = e.get_uf("timestamp_of", [z3.IntSort()], z3.RealSort())
+        yield st, f(o.data["str"])
+    else:
+        raise Unsupported(f"datetime.{name}")
